@@ -271,7 +271,7 @@ func main() {
 	r.Cov["samples"] = samples.List
 	r.Cov["max_depth"] = depth
 	r.Cov["state_space_closed"] = closed
-	r.Cov["bound"] = fmt.Sprintf("at most %d stored items; alphabet of %d operations; BFS until no new canonical state (depth cap %d); both sync.Pool policies; burst histories Offer^n Poll^n Offer^n Poll^(n+1) and Push^n Pop^n Unshift^n Shift^(n+1) for every n up to %d", maxItems, len(all), maxDepth, bursts)
+	r.Cov["bound"] = fmt.Sprintf("at most %d stored items; alphabet of %d operations; BFS until no new canonical state (depth cap %d); both sync.Pool policies; burst histories Offer^n Poll^n Offer^n Poll^(n+1) and Push^n Pop^n Unshift^n Shift^(n+1) for every n up to %d and n in {1025, 1100, 2049, 4097, 5000}", maxItems, len(all), maxDepth, bursts)
 	r.Cov["evaluations"] = transitions
 	r.Cov["distinct_nontrivial"] = len(seen)
 	r.Cov["rule"] = "a state is the canonical dump of the complete private node graph (list chain via Next and Prev, pool chain, counters) plus the model deque, values renamed by first appearance; every distinct state is counted"
@@ -290,7 +290,17 @@ func burstFamily(r *lib.Report, all []op) (int, int) {
 	opsDone := 0
 	for _, retain := range []int{0, 1, 2} {
 		vsched.PoolRetain = retain
+		sizes := []int{}
 		for n := 1; n <= maxN; n++ {
+			sizes = append(sizes, n)
+		}
+		// a few deep bursts beyond the dense range: a burst of n crosses every size threshold below n
+		for _, n := range []int{1025, 1100, 2049, 4097, 5000, 8193, 10000} {
+			if n > maxN && (n <= 5000 || r.Tier == "thorough") {
+				sizes = append(sizes, n)
+			}
+		}
+		for _, n := range sizes {
 			for variant := 0; variant < 2; variant++ {
 				lib.Beat([]int{})
 				q := fpgo.NewLinkedListQueue[int]()
